@@ -5,6 +5,9 @@ b  orientation tables: |lambda|<1 -> stable lists, >1 -> unstable; pipeline tupl
 c  the seed formula  x0W = x(frac) + d/|MAN_pos| * Re(MAN),  MAN = direction * Phi(frac) eigvec
 d  integration direction of the branches (stable backward, unstable forward, full negation)
 e  a trajectory is kept only if neither the proximity nor the energy guard fired, energy = a first integral
+
+b (added)  real eigenpairs are returned in eigen-solver order (order-abstract argsort at representative multipliers)
+e (added)  options given to Manifold.compute reach _run_compute under their own names; default guards are not vacuous
 """
 from __future__ import annotations
 
